@@ -9,6 +9,7 @@ import (
 	"strings"
 	"sync"
 	"sync/atomic"
+	"time"
 
 	"github.com/oasisprotocol/oasis-core/go/storage/mkvs"
 	"github.com/oasisprotocol/oasis-core/go/storage/mkvs/checkpoint"
@@ -27,6 +28,13 @@ type facts struct {
 	// AbortMultipartInsert, HasRoot(checkpoint root) answered true.
 	RootListedAfterAbort      bool `json:"root_listed_after_abort"`
 	ChunksRestoredBeforeAbort int  `json:"chunks_restored_before_abort,omitempty"`
+	// Gated describes the forced interleaving of the "gated" order class.
+	Gated []string `json:"gated_interleaving,omitempty"`
+
+	// want is the reference contents (for the read-back right after an early done=true).
+	want []kv
+	// extra collects further oracle failures of the same run (reported by the caller).
+	extra []*problem
 }
 
 // sigAbortedMultipart is the signature of the finding "pathbadger loses the nodes of a restore
@@ -316,6 +324,11 @@ func honestRestore(ctx context.Context, ndb api.NodeDB, backend string, meta *ch
 		if cur := rs.GetCurrentCheckpoint(); cur != nil {
 			return &problem{"c12/restore-done-flag-wrong/" + backend + "/concurrent", "all chunks accepted but a restore is still reported in progress"}
 		}
+	case "gated":
+		finalized, p := gatedRestore(ctx, ndb, rs, backend, meta, chunks, rng, st, fc, submit)
+		if p != nil || finalized {
+			return p
+		}
 	default:
 		panic("unknown order class " + order)
 	}
@@ -394,4 +407,205 @@ func verifyRestored(ctx context.Context, ndb api.NodeDB, backend, shape string, 
 		}
 	}
 	return nil
+}
+
+// gatedReader serves a chunk but blocks in its first Read until released, i.e. after the restorer
+// has accepted the submission and before anything of the chunk is imported.
+type gatedReader struct {
+	inner   *bytes.Reader
+	once    sync.Once
+	entered chan struct{}
+	release chan struct{}
+}
+
+func newGatedReader(b []byte) *gatedReader {
+	return &gatedReader{inner: bytes.NewReader(b), entered: make(chan struct{}), release: make(chan struct{})}
+}
+
+func (g *gatedReader) Read(p []byte) (int, error) {
+	g.once.Do(func() { close(g.entered) })
+	<-g.release
+	return g.inner.Read(p)
+}
+
+type gatedResult struct {
+	idx  int
+	done bool
+	err  error
+	pan  any
+}
+
+// gatedWatchdog bounds the waits of the forced interleavings; its firing is inconclusive.
+const gatedWatchdog = 5 * time.Minute
+
+// gatedRestore forces the interleaving "the last chunks are in flight together": one to three
+// PRNG-chosen chunks are submitted by callers of their own whose readers block inside Read; all
+// other chunks are restored (before and after the gated callers entered) and their callers
+// return; then the gated chunks are released one by one in PRNG order, each after the previous
+// caller returned. Like the production callers (storage worker, ABCI state sync) the harness acts
+// on done=true at once: it finalizes and reads the root back while the remaining chunks are still
+// blocked. done=true with a chunk that is not imported yet is a violation.
+func gatedRestore(ctx context.Context, ndb api.NodeDB, rs checkpoint.Restorer, backend string, meta *checkpoint.Metadata, chunks [][]byte, rng *rand.Rand, st stats, fc *facts, submit func(int) *problem) (bool, *problem) {
+	n := len(chunks)
+	if n < 2 {
+		for i := 0; i < n; i++ {
+			if p := submit(i); p != nil {
+				return false, p
+			}
+		}
+		return false, nil
+	}
+	g := 1 + rng.IntN(min(3, n-1))
+	if g < 2 && n >= 3 && rng.IntN(3) != 0 {
+		g = 2 // mostly at least two chunks in flight together
+	}
+	perm := rng.Perm(n)
+	gatedIdx, rest := perm[:g], perm[g:]
+	pre := rng.IntN(len(rest) + 1)
+	note := func(format string, a ...any) { fc.Gated = append(fc.Gated, fmt.Sprintf(format, a...)) }
+	st.add("gated_restores/"+backend, 1)
+	st.add("gated_chunks_in_flight", int64(g))
+
+	for _, i := range rest[:pre] {
+		if p := submit(i); p != nil {
+			return false, p
+		}
+	}
+	note("%d of %d chunks restored first: %v", pre, n, rest[:pre])
+
+	// Start the gated callers and wait until each of them is blocked inside Read.
+	results := make(chan gatedResult, g)
+	readers := map[int]*gatedReader{}
+	for _, i := range gatedIdx {
+		gr := newGatedReader(chunks[i])
+		readers[i] = gr
+		go func() {
+			res := gatedResult{idx: i}
+			defer func() {
+				if rec := recover(); rec != nil {
+					res.pan = rec
+				}
+				results <- res
+			}()
+			res.done, res.err = rs.RestoreChunk(ctx, uint64(i), gr)
+		}()
+		select {
+		case <-gr.entered:
+		case res := <-results:
+			// The call returned without reading the chunk.
+			return false, &problem{
+				"c12/honest-chunk-rejected/" + backend + "/gated/" + errClass(res.err),
+				fmt.Sprintf("RestoreChunk(%d) of an honest, not yet restored chunk returned without reading it: done=%v err=%v panic=%v", i, res.done, res.err, res.pan),
+			}
+		case <-time.After(gatedWatchdog):
+			return false, &problem{"inconclusive/gated-reader-not-entered", fmt.Sprintf("RestoreChunk(%d) neither read the chunk nor returned", i)}
+		}
+		st.add("restorechunk_calls", 1)
+	}
+	note("callers of chunks %v blocked inside Read", gatedIdx)
+
+	inFlight := map[int]bool{}
+	for _, i := range gatedIdx {
+		inFlight[i] = true
+	}
+	imported := pre
+	// earlyDone handles done=true while chunks are still in flight.
+	earlyDone := func(by int) *problem {
+		var fl []int
+		for _, i := range gatedIdx {
+			if inFlight[i] {
+				fl = append(fl, i)
+			}
+		}
+		note("RestoreChunk(%d) returned done=true with chunks %v still blocked before import", by, fl)
+		what := fmt.Sprintf("RestoreChunk(%d) returned done=true after %d of %d chunks were imported; the callers of chunks %v were still blocked inside Read (nothing of them imported)", by, imported, n, fl)
+		// What the production callers do on done=true: finalize at once, then use the root.
+		if ferr := ndb.Finalize([]node.Root{meta.Root}); ferr != nil {
+			what += fmt.Sprintf("; Finalize: %v", ferr)
+		} else {
+			got, rerr := readAll(ctx, ndb, meta.Root)
+			d := diffContents(got, fc.want)
+			what += fmt.Sprintf("; Finalize succeeded; read-back: %d entries, err %v %s", len(got), rerr, d)
+			if rerr != nil || d != "" {
+				fc.extra = append(fc.extra, &problem{
+					"c12/restore-mismatch/" + backend + "/after-early-done",
+					fmt.Sprintf("root finalized on done=true is not fully readable: %d of %d entries, err %v %s", len(got), len(fc.want), rerr, d),
+				})
+			}
+		}
+		// Release the stragglers; they must fail or succeed harmlessly.
+		for _, i := range fl {
+			close(readers[i].release)
+			select {
+			case res := <-results:
+				inFlight[res.idx] = false
+				st.add("straggler_after_early_done/"+errClass(res.err), 1)
+				if res.pan != nil {
+					fc.extra = append(fc.extra, &problem{"panic/restore-chunk-after-early-done/" + backend, fmt.Sprint(res.pan)})
+				}
+			case <-time.After(gatedWatchdog):
+				return &problem{"inconclusive/gated-straggler-did-not-return", what}
+			}
+		}
+		return &problem{"c12/restorer/done-reported-with-chunk-in-flight/" + backend, what}
+	}
+
+	// The other callers go on and return while the gated ones are blocked.
+	for _, i := range rest[pre:] {
+		done, err := rs.RestoreChunk(ctx, uint64(i), bytes.NewReader(chunks[i]))
+		st.add("restorechunk_calls", 1)
+		if err != nil {
+			for _, j := range gatedIdx {
+				close(readers[j].release)
+			}
+			return false, &problem{
+				"c12/honest-chunk-rejected/" + backend + "/gated/" + errClass(err),
+				fmt.Sprintf("RestoreChunk(%d) of an honest, not yet restored chunk failed while other chunks were in flight: %v", i, err),
+			}
+		}
+		imported++
+		if done {
+			return true, earlyDone(i)
+		}
+	}
+	note("%d further chunks restored while they were blocked: %v", len(rest)-pre, rest[pre:])
+
+	// Release the gated chunks one by one.
+	order := rng.Perm(g)
+	for k, oi := range order {
+		i := gatedIdx[oi]
+		close(readers[i].release)
+		var res gatedResult
+		select {
+		case res = <-results:
+		case <-time.After(gatedWatchdog):
+			return false, &problem{"inconclusive/gated-caller-did-not-return", fmt.Sprintf("RestoreChunk(%d) did not return after its reader was released", i)}
+		}
+		inFlight[res.idx] = false
+		note("released chunk %d: caller of chunk %d returned done=%v err=%v", i, res.idx, res.done, res.err)
+		if res.pan != nil {
+			for _, oj := range order[k+1:] {
+				close(readers[gatedIdx[oj]].release)
+			}
+			return false, &problem{"panic/restore-chunk-gated/" + backend, fmt.Sprint(res.pan)}
+		}
+		if res.err != nil {
+			for _, oj := range order[k+1:] {
+				close(readers[gatedIdx[oj]].release)
+			}
+			return false, &problem{
+				"c12/honest-chunk-rejected/" + backend + "/gated/" + errClass(res.err),
+				fmt.Sprintf("RestoreChunk(%d) of an honest, not yet restored chunk failed after its reader was released: %v", res.idx, res.err),
+			}
+		}
+		imported++
+		last := k == len(order)-1
+		if res.done && !last {
+			return true, earlyDone(res.idx)
+		}
+		if !res.done && last {
+			return false, &problem{"c12/restore-done-flag-wrong/" + backend + "/gated", fmt.Sprintf("all %d chunks imported but the last RestoreChunk call returned done=false", n)}
+		}
+	}
+	return false, nil
 }
